@@ -147,6 +147,8 @@ FIXED = {
         ('reshape-emptying-vs-inventory', [('reshape', 39, [(2, 2, [])], [cons(2, 1, [])]),
                                            ('inv_set', 39, 2, 2, [inv(0, 16)])],
          [(0, 'rp', 2, 2), (1, 'rp', 2, 2)]),
+        ('inventory-shrink-vs-claim', [('inv_put', 39, 2, 2, inv(0, 2)), ('alloc_put', 39, cons(5, None, [(2, [(0, 6)])]))],
+         [(0, 'rp', 2, 2)]),
         ('three-guarded', [('inv_set', 39, 1, 3, [inv(0, 4)]), ('aggs_set', 39, 1, 3, [2]), ('inv_put', 39, 1, 3, inv(0, 16))],
          [(0, 'rp', 1, 3), (1, 'rp', 1, 3), (2, 'rp', 1, 3)]),
         # fault-assisted: request 0 loses the duplicate-key race for a NEW aggregate once (its transaction is rolled back and
@@ -172,6 +174,16 @@ FIXED = {
         ('racing-create-different-types', [('alloc_put', 38, dict(cons(5, None, [(1, [(0, 1)])]), type=1)),
                                            ('alloc_put', 38, dict(cons(5, None, [(1, [(0, 1)])]), type=2, proj=2))],
          [(0, 'cons', 5, None), (1, 'cons', 5, None)]),
+        # consumers at DIFFERENT generations in one POST (consumer 3 is written twice in the extra set-up): a stale entry for
+        # consumer 2 must not pass because its generation happens to be the one expected for consumer 3
+        ('post-mixed-generations-vs-put', [('alloc_post', 39, [cons(2, 1, [(1, [(0, 1)])]), cons(3, 2, [(1, [(0, 2)])])]),
+                                           ('alloc_put', 39, cons(2, 1, [(2, [(0, 3)])]))],
+         [(0, 'cons', 2, 1), (1, 'cons', 2, 1)], None,
+         [('alloc_put', 39, cons(3, None, [(1, [(0, 1)])])), ('alloc_put', 39, cons(3, 1, [(1, [(0, 1)])]))]),
+        ('reshape-mixed-generations-vs-put', [('reshape', 39, [], [cons(2, 1, [(1, [(0, 1)])]), cons(3, 2, [(2, [(0, 2)])])]),
+                                              ('alloc_put', 39, cons(2, 1, [(2, [(0, 3)])]))],
+         [(0, 'cons', 2, 1), (1, 'cons', 2, 1)], None,
+         [('alloc_put', 39, cons(3, None, [(1, [(0, 1)])])), ('alloc_put', 39, cons(3, 1, [(1, [(0, 1)])]))]),
         ('racing-create-older-version', [('alloc_put', 38, dict(cons(5, None, [(1, [(0, 1)])]), type=2)),
                                          ('alloc_put', 30, cons(5, None, [(1, [(0, 1)])], 30))],
          [(0, 'cons', 5, None), (1, 'cons', 5, None)]),
@@ -180,6 +192,13 @@ FIXED = {
         ('stale-write-changing-attributes', [('alloc_put', 39, dict(cons(2, 1, [(1, [(0, 2)])]), proj=2)),
                                              ('alloc_put', 39, cons(2, 1, [(2, [(0, 3)])]))],
          [(0, 'cons', 2, 1), (1, 'cons', 2, 1)]),
+        # a single-class inventory PUT that shrinks capacity, overtaken by a claim that only fits the old capacity: the PUT's
+        # generation is stale when it commits (either order alone refuses one of them)
+        ('inventory-shrink-vs-claim', [('inv_put', 39, 2, 2, inv(0, 2)), ('alloc_put', 39, cons(5, None, [(2, [(0, 6)])]))],
+         [(0, 'rp', 2, 2)]),
+        ('inventory-set-shrink-vs-post', [('inv_set', 39, 1, 3, [inv(0, 2), inv(2, 100)]),
+                                          ('alloc_post', 39, [cons(5, None, [(1, [(0, 6)])]), cons(4, None, [(1, [(2, 10)])])])],
+         [(0, 'rp', 1, 3)]),
         ('capacity-race', [('alloc_put', 39, cons(4, None, [(1, [(0, 5)])])), ('alloc_put', 39, cons(5, None, [(1, [(0, 5)]), (2, [(0, 1)])]))], []),
         ('null-put-vs-gen0-put', [('alloc_put', 39, cons(5, None, [(1, [(0, 2)])])), ('alloc_put', 39, cons(5, 0, [(2, [(0, 3)])]))],
          [(0, 'cons', 5, None), (1, 'cons', 5, 0)]),
@@ -192,7 +211,8 @@ def fixed_scenarios(pid):
              ('rp_create', 39, 2, 2, None), ('inv_set', 39, 2, 0, [inv(0, 8)]),
              ('traits_set', 39, 1, 1, [0]), ('aggs_set', 39, 1, 2, [1]),
              ('alloc_put', 39, cons(2, None, [(2, [(0, 1)])])), ('rp_create', 39, 3, 3, None)]
-    return [conc.Scenario(x[0], setup, x[1], x[2], fault=(x[3] if len(x) > 3 else None)) for x in FIXED[pid]]
+    return [conc.Scenario(x[0], setup + (x[4] if len(x) > 4 else []), x[1], x[2], fault=(x[3] if len(x) > 3 else None))
+            for x in FIXED[pid]]
 
 
 def known_pattern(scn, obs):
